@@ -222,6 +222,7 @@ impl TypedProgram {
             return Err(errs);
         }
         let mut input_gates = vec![];
+        let mut params_in_scope = vec![];
         let mut wire = 2;
         let Some(fn_def) = self.fn_defs.get(fn_name) else {
             return Err(vec![CompilerError::FnNotFound(fn_name.to_string())]);
@@ -248,7 +249,7 @@ impl TypedProgram {
                 }
                 input_gates.push(type_size);
             }
-            env.let_in_current_scope(param.name.clone(), wires);
+            params_in_scope.push((param.name.clone(), wires));
         } else {
             for param in fn_def.params.iter() {
                 let type_size = param.ty.size_in_bits_for_defs(self, &const_sizes);
@@ -258,7 +259,7 @@ impl TypedProgram {
                     wire += 1;
                 }
                 input_gates.push(type_size);
-                env.let_in_current_scope(param.name.clone(), wires);
+                params_in_scope.push((param.name.clone(), wires));
             }
         }
         if input_gates.iter().all(|bits| *bits == 0) {
@@ -345,6 +346,12 @@ impl TypedProgram {
                     }
                 }
             }
+        }
+        // the parameters live in a scope of their own, inside of the scope of the constants, so
+        // that a parameter shadows a constant of the same name (as it does for the type checker):
+        env.push();
+        for (param_name, wires) in params_in_scope {
+            env.let_in_current_scope(param_name, wires);
         }
         let output_gates = compile_block(&fn_def.body, self, &mut env, &mut circuit);
         Ok((circuit.build(output_gates), fn_def, const_sizes))
